@@ -177,7 +177,13 @@ func c02Commute(c *rig.Ctx) {
 		}
 	}
 	c.Count("commute:overlapping-call-pairs", int64(overlaps))
-	c.Count("commute:updates", int64(func() int { n := 0; for _, p := range plans { n += len(p) }; return n }()))
+	c.Count("commute:updates", int64(func() int {
+		n := 0
+		for _, p := range plans {
+			n += len(p)
+		}
+		return n
+	}()))
 	if rig.Multiset(got) != rig.Multiset(want) {
 		var hist []string
 		for w := range plans {
